@@ -1175,3 +1175,47 @@ func ReceiverFieldPath(bound *ssa.MakeClosure, method *ssa.Function, path string
 	}
 	return Path(v)
 }
+
+// ThinTarget: when the body of fn does nothing but call one repo function with values it already has and
+// return that call's results (a closure kept only to defer the call: `func() T { return x.helper(a, b) }`),
+// ThinTarget returns that function and the call; otherwise nil.
+func ThinTarget(p *Prog, fn *ssa.Function) (*ssa.Function, *ssa.Call) {
+	if fn == nil || len(fn.Blocks) != 1 {
+		return nil, nil
+	}
+	var call *ssa.Call
+	n := 0
+	ok := true
+	for _, ins := range fn.Blocks[0].Instrs {
+		switch x := ins.(type) {
+		case *ssa.Call:
+			if _, isB := x.Call.Value.(*ssa.Builtin); isB {
+				ok = false
+			}
+			call = x
+			n++
+		case *ssa.Return:
+			for _, r := range RetVals(x) {
+				rv := Resolve(r)
+				if rv == ssa.Value(call) {
+					continue
+				}
+				if ex, isE := rv.(*ssa.Extract); isE && ex.Tuple == ssa.Value(call) {
+					continue
+				}
+				ok = false
+			}
+		case *ssa.UnOp, *ssa.FieldAddr, *ssa.Field, *ssa.Extract, *ssa.DebugRef, *ssa.MakeInterface, *ssa.ChangeType, *ssa.Alloc, *ssa.Store, *ssa.IndexAddr, *ssa.Slice:
+		default:
+			ok = false
+		}
+	}
+	if !ok || n != 1 || call == nil {
+		return nil, nil
+	}
+	g := Callee(&call.Call)
+	if g == nil || !p.InRepo(g) || len(g.Blocks) == 0 {
+		return nil, nil
+	}
+	return g, call
+}
